@@ -188,7 +188,9 @@ def ifunc_of_pyfunc(f, cls=None):
             cls = obj if isinstance(obj, type) else None
         except AttributeError:
             cls = None
-    return IFunc(node, module, f.__qualname__, cls)
+    r = IFunc(node, module, f.__qualname__, cls)
+    r.pyfunc = f  # real function object: its closure cells resolve free variables of functions made by a factory
+    return r
 
 
 # ---------------------------------------------------------------------------------------------
@@ -581,6 +583,17 @@ class Interp:
                 f = self.ifunc_from_classattr(k, name, attr)
                 if f is not None:
                     return SBound(obj, f)
+            if name in ("name", "value") and not issubclass(obj.cls, enum.Flag):
+                # member attribute of a (possibly symbolic) int-valued enum member: case chain over the members
+                if name == "value":
+                    return SInt(obj.t)
+                members = list(obj.cls)
+                if obj.concrete() is not None and obj.concrete() not in [m.value for m in members]:
+                    raise Unsupported(f"{obj.cls.__name__}({obj.concrete()}) is not a member")
+                r = z3.StringVal(members[-1].name)
+                for m in reversed(members[:-1]):
+                    r = z3.If(obj.t == m.value, z3.StringVal(m.name), r)
+                return SStr(simp(r))
         # builtin-typed values: methods handled by lib
         return SConst(("method", obj, name))
 
@@ -658,6 +671,9 @@ class Interp:
         if isinstance(cls, type) and issubclass(cls, enum.Enum):
             v = self.resolve(args[0])
             if isinstance(v, SInt):
+                vcn = v.concrete()
+                if vcn is not None and not issubclass(cls, enum.Flag) and vcn not in [m.value for m in cls]:
+                    self.raise_(ValueError, f"{vcn} is not a valid {cls.__name__}")  # exact for a concrete non-member value
                 self.ex.note("assumed", f"{cls.__name__}(int) yields a member with that value (Flag composition / valid member)")
                 return SEnum(cls, v.t)
             raise Unsupported(f"enum construction {cls.__name__}({v!r})")
@@ -792,6 +808,23 @@ class Interp:
     def exec_Expr(self, s):
         if isinstance(s.value, ast.Constant):
             return
+        v = s.value
+        if (isinstance(v, ast.Call) and isinstance(v.func, ast.Attribute) and v.func.attr in ("extend", "clear")
+                and isinstance(v.func.value, (ast.Name, ast.Attribute)) and not v.keywords):
+            # bytearray is modelled as an immutable bytes value (see lib.f_bytearray): the in-place methods
+            # `buf.extend(x)` / `buf.clear()` used as statements rebind the name/attribute (no aliasing of the buffer)
+            recv = self.resolve(self.eval(v.func.value))
+            if isinstance(recv, SBytes):
+                self.ex.note("assumed", "bytearray modelled as bytes: buf.extend(x)/buf.clear() rebind buf (no aliasing of the buffer)")
+                if v.func.attr == "clear" and not v.args:
+                    self.assign(v.func.value, SBytes(b""))
+                    return
+                if v.func.attr == "extend" and len(v.args) == 1:
+                    x = self.resolve(self.eval(v.args[0]))
+                    if not isinstance(x, SBytes):
+                        x = self.resolve(self.lib.f_bytes(self, x))
+                    self.assign(v.func.value, SBytes(simp(z3.Concat(recv.t, x.t))))
+                    return
         self.eval(s.value)
 
     def exec_Pass(self, s):
@@ -1025,6 +1058,8 @@ class Interp:
         inv = self.ex.loop_invariant(fr.func, fr.loop_ordinal)
         if inv is not None:
             return self.exec_loop_with_invariant(s, inv, it)
+        if isinstance(it, SGen) and getattr(self.ex, "lazy_generators", False):
+            return self.exec_for_lazy_gen(s, it)
         if isinstance(it, SSeq) or (isinstance(it, (SBytes, SStr)) and it.concrete() is None and not z3.is_int_value(simp(z3.Length(it.t)))):
             # symbolic length: bounded unrolling (labelled)
             n = 0
@@ -1057,6 +1092,41 @@ class Interp:
 
     exec_AsyncFor = exec_For
 
+    def exec_for_lazy_gen(self, s, g):
+        """`for x in gen(): body` with the generator advanced lazily (scenario option lazy_generators=True): the loop body
+        runs at each yield, and break/return/an exception of the body abandons the generator at that yield (its code after
+        the yield never runs) -- needed where fully exhausting the generator would raise (tls.handshake_record_contents)."""
+        fr = self.frames[-1]
+
+        class _Abandon(Exception):
+            def __init__(self, sig):
+                self.sig = sig
+
+        def sink(v):
+            self.frames.append(fr)
+            try:
+                self.assign(s.target, v)
+                try:
+                    self.exec_block(s.body)
+                except ContinueSig:
+                    pass
+                except (BreakSig, ReturnSig, PyExc) as sig:
+                    raise _Abandon(sig)
+            finally:
+                self.frames.pop()
+            return NONE
+
+        depth, nframes = self.depth, len(self.frames)
+        try:
+            self.consume_gen(g, sink)
+        except _Abandon as ab:
+            self.depth = depth
+            del self.frames[nframes:]
+            if isinstance(ab.sig, BreakSig):
+                return
+            raise ab.sig
+        self.exec_block(s.orelse)
+
     def exec_loop_with_invariant(self, s, inv, it):
         """Inductive loop handling: check inv on entry; havoc the loop's assigned locals; assume inv;
         then either (a) run one arbitrary iteration and check inv again (path ends), or (b) leave the loop."""
@@ -1070,8 +1140,16 @@ class Interp:
         self.ex.obligation(f"{name}/inv.entry", inv(self, fr.locals, idx))
         self.ex.used_invariant = True  # states after the havoc need not be reachable: no native conformance sample for this path
         # havoc
-        for v in sorted(_assigned_names(s)):
+        # inv.pinned = {local name: value}: locals the invariant fixes to a constant (e.g. `cancelled is None`); havoc + assume(x == c)
+        # is the assignment x := c, so they are set instead of havocked; that the loop really keeps them is checked at entry/preserve
+        pinned = getattr(inv, "pinned", None) or {}
+        for v, pv in pinned.items():
             if v in fr.locals:
+                self.ex.obligation(f"{name}/inv.entry.pinned.{v}", self.lib.py_eq(self, self.resolve(fr.locals[v]), pv))
+        for v in sorted(_assigned_names(s)):
+            if v in fr.locals and v in pinned:
+                fr.locals[v] = pinned[v]
+            elif v in fr.locals:
                 fr.locals[v] = self.havoc_like(fr.locals[v], v)
         if hasattr(inv, "havoc"):
             inv.havoc(self, fr.locals)  # scenario-defined havoc of heap / ghost state modified by the loop
@@ -1097,6 +1175,9 @@ class Interp:
                 pass
             nxt = None if idx is None else SInt(idx.t + 1)
             self.ex.obligation(f"{name}/inv.preserve", inv(self, fr.locals, nxt))
+            for v, pv in pinned.items():
+                if v in fr.locals:
+                    self.ex.obligation(f"{name}/inv.preserve.pinned.{v}", self.lib.py_eq(self, self.resolve(fr.locals[v]), pv))
             raise PathEnd("loop iteration checked")
         self.exec_block(s.orelse)
 
@@ -1239,6 +1320,10 @@ class Interp:
             if name in c.locals:
                 return c.locals[name]
             c = c.func.closure if c.func else None
+        pf = getattr(fr.func, "pyfunc", None) if fr.func else None
+        if pf is not None and pf.__closure__ and name in pf.__code__.co_freevars:
+            # free variable of a real function object created by a factory (e.g. cryptography's _make_sequence_methods)
+            return lift(pf.__closure__[pf.__code__.co_freevars.index(name)].cell_contents)
         mod = fr.func.module
         mg = self.ex.module_globals.get((mod.__name__, name))
         if mg is not None:
